@@ -1,27 +1,171 @@
-"""C15 HTTP status codes and body shapes follow the mapping (DESIGN §5 C15)."""
+"""C15 HTTP status codes and body shapes follow the mapping (DESIGN §5 C15).
+
+Under contract (all executed from the real source by the engine, end to end per route):
+`_RpcResource / _StreamInitResource / _ExchangeResource / _UploadUrlResource.on_post`,
+`_HttpRpcApp._resolve_method` (+ the three delegators), `_check_content_type`, `_set_http_status`,
+`_set_error_response`, `_error_response_stream`, `_run_unary_sync`, `_run_stream_init_sync`,
+`_dispatch_telemetry`, `_run_http_exchange_init`, `_run_http_producer_init`, `_run_stream_exchange_sync`,
+`_unpack_and_recover_state`, `_resolve_call_from_token`, `_run_http_exchange_turn`, `_exchange_error_response`,
+the request-side arms of `_MaxRequestBytesMiddleware` / `_CompressionMiddleware` and the app's error serializer
+(`_make_error_serializer.<locals>._serialize`).  The abstract world (falcon records, IPC reader / writer, by-contract
+callees, arbitrary user code) and the native replay harness are in contracts/lib_httpdispatch.py.
+
+Obligations (names as printed):
+  O1  only falcon HTTPErrors leave a responder / a middleware arm (a bare exception is falcon's 500), with the IPC
+      reader allowed to raise ArrowInvalid or StopIteration at ANY read, arbitrary metadata and arbitrary tokens;
+  O2  the response status is the property's table: a request whose defects D were decided on the path is answered
+      with the status of one of them (415 content type, 404 unknown method, 400 everything else) and never 200; a
+      request reaches the service only with the Arrow content type, a method name matching the metadata and no defect,
+      is answered 200, and carries X-VGI-RPC-Error exactly when the call failed (method / process raised - including
+      TypeError, ArrowInvalid, StopIteration -, unusable result, cap overshoot, failed turn);
+  O3  every response other than 401 / 415 has the Arrow content type and a body that an IPC writer opened and closed
+      (ghost events); error responses carry an error batch.
+"""
 
 from __future__ import annotations
 
+import falcon
 import z3
 
-import vgi_rpc.http.server._resources as res
-from lib_httpdispatch import drive_unary
+from lib_httpdispatch import (
+    ARROW,
+    MW_TABLE,
+    drive_exchange,
+    drive_init,
+    drive_middleware_rejection,
+    drive_unary,
+    drive_upload,
+    make_replay,
+    replay_middleware,
+)
 from pyvc.api import *  # noqa: F403
-from pyvc.api import ReplayResult, unit
+from pyvc.api import unit
 
 MANIFEST = {
-    "level_text": "TODO",
-    "level_note": "TODO",
-    "technique": "contract-based deductive verification",
+    "level_text": "Deductive proof over every path of the real responders of the four RPC routes, executed end to end from on_post through _resolve_method / _check_content_type, the real dispatch functions (_run_unary_sync, _run_stream_init_sync with _dispatch_telemetry and both init shapes, _run_stream_exchange_sync with _unpack_and_recover_state, _resolve_call_from_token, the cancel branch, _run_http_exchange_turn and _exchange_error_response) down to _set_http_status / _set_error_response, for an arbitrary Content-Type header (absent or any string), an arbitrary method table entry (unknown / unary / stream, with or without header), a request body on which pyarrow's reader may raise ArrowInvalid or StopIteration at any read, arbitrary request metadata (method name, request version, protocol version, each token key absent or arbitrary bytes), every outcome of the validators, of the token openers, of the cache, of schema / state / call-state deserialisation and of the user hooks, and arbitrary user code (service method, process, on_cancel, dispatch hooks, upload-url provider: returns or raises, including TypeError / ArrowInvalid / StopIteration). Proved: (O1) nothing but a falcon HTTPError leaves a responder, so falcon never synthesises a 500; (O2) the status set on the response is the table's - 415 only for a wrong content type, 404 for an unknown method, 400 for a unary/stream route mismatch, malformed IPC, missing or mismatched metadata, version and parameter rejections and every token failure; a call is dispatched only for a defect-free request, is answered 200 and carries X-VGI-RPC-Error: true exactly when it failed; a rejected request is never answered 200; (O3) every response other than 401/415 has the Arrow content type and a body opened and closed by an IPC writer, error responses carrying an error batch. The request-side arms of the size and decompression middlewares are executed too, and the falcon error they raise is passed through the app's real error serializer: 413 / 415 / 400 as in the table, and the 400 / 413 bodies are Arrow IPC error streams.",
+    "level_note": "Not reduced to contracts: that the bytes an IPC writer produced decode (pyarrow); falcon's own behaviour (an HTTPError raised by a middleware or responder becomes its status with the body written by the app's error serializer; req.content_type is the header value or None; routing of /{method}, /{method}/init, /{method}/exchange to the three resources - read off the real route table in C20.O3). By contract, proved elsewhere: _read_request's normal-return clause (C06_http.O5), _validate_call_signature / _validate_params (C06.O1/O2), the protocol-version gate (C09), the token openers raise only _RpcHttpError(400) (C12), _enforce_response_budgets (C16.O1), _run_http_producer_turn's marker/error-batch clause (C16.O5, C11.O4), 401 for rejected credentials (C20.O1), which codings are unknown/disabled and the size caps (C17.O1/O2), _get_request_stream never raises (C17.O4). Server-implementation faults are outside the statement ('client-controlled input'): a stream method returning a non-Stream or no declared header, unserialisable stream / call state at /init, a stream method without a resolvable state type. Failures that are neither in the table nor the method's own (an external-location pointer that cannot be fetched, an exchange input batch that does not fit the declared input schema) are only required not to be a 5xx and, if answered 200, to carry the marker.",
+    "technique": "contract-based deductive verification: exceptional postconditions (raises-clauses) and status/header/body postconditions over all paths of the real responders, ghost trace of IPC-writer and dispatch events, by-contract callees as forking handlers with lazily decided request defects; VCs by pyvc, z3 then cvc5; native replay through the real make_wsgi_app + falcon test client",
     "design_ref": "DESIGN.md §5 C15",
 }
 EXPLANATION = MANIFEST["level_text"]
-TRUSTED: list[str] = []
-ASSUMPTIONS: list[str] = []
+TRUSTED = [
+    "pyvc VC generator (exception forks at every raise site, try/except/finally, generator-based context managers inlined around their yield, ContextVar model)",
+    "z3 5.1.0 / cvc5 1.0.3",
+    "falcon: an HTTPError raised in process_request or a responder is answered with the error's status and the body written by app.set_error_serializer's callback; any other exception is answered 500; req.content_type is the Content-Type header or None; resp.status / content_type / stream / data / set_header are plain setters",
+    "pyarrow: ipc.open_stream raises ArrowInvalid on non-IPC bytes; read_next_batch_with_custom_metadata returns a batch, raises ArrowInvalid (corrupt message) or StopIteration (end of stream); an IPC writer produces a decodable stream (schema, batches, EOS)",
+]
+ASSUMPTIONS = [
+    "by contract (proved in other units): _read_request (C06_http.O5 + pyarrow's exception classes), _deserialize_params raises only KeyError / ValueError / TypeError / ArrowInvalid for caller-supplied values, _validate_call_signature / _validate_params (C06.O1/O2), RpcServer._check_protocol_version raises only ProtocolVersionError (C09), _open_cursor_token / _open_call_token raise only _RpcHttpError(400) (C12), _enforce_response_budgets (C16.O1), _run_http_producer_turn (C16.O5 / C11.O4), _get_request_stream (C17.O4), _codec.decompress (C18)",
+    "service implementation is well-formed (server-side faults are outside 'client-controlled input'): a stream method returns a Stream carrying the declared header; its state and call state serialise at /init (_mint_call_token succeeds); _resolve_state_types has an entry for every stream method",
+    "RpcServer's accessor properties (methods, ipc_validation, external_config, server_id, protocol_name, implementation, ctx_methods, transport_kind, server_version, protocol_hash) are plain attribute reads",
+    "telemetry (_emit_access_log, _log_method_error, _truncate_error_message, _record_input/_record_output, client-log sink flush) returns normally and writes nothing to the response",
+    "the producer turn is used by contract; the unary route's prebuilt __describe__ answer counts as a dispatched call that cannot fail",
+    "an external-location pointer that cannot be fetched and an exchange input batch rejected by _coerce_input_batch are not rows of the table: only 'no 5xx, a 200 carries the marker' is required for them",
+    "the URL method name is the concrete string 'm' ('__describe__', '__upload_url__'): the method table is abstract (arbitrary answer), so the name itself carries no information",
+]
 
 
-@unit("C15 unary route", targets=["vgi_rpc/http/server/_resources.py::_RpcResource.on_post"], min_obligations=20, max_paths=6000)
+def _common_canaries(S, W, tag):
+    if W.defects == ["unknown_method"] or "impl_outcome" in W.knobs or "process_outcome" in W.knobs:
+        S.canary(f"canary.{tag}.every_request_is_dispatched", SBool(z3.BoolVal(W.dispatched)))
+
+
+@unit(
+    "C15.O1-O3 unary route: _RpcResource.on_post down to the service method",
+    targets=[
+        "vgi_rpc/http/server/_resources.py::_RpcResource.on_post",
+        "vgi_rpc/http/server/_app.py::_HttpRpcApp._resolve_method",
+        "vgi_rpc/http/server/_responses.py::_check_content_type",
+        "vgi_rpc/http/server/_app_unary.py::_run_unary_sync",
+        "vgi_rpc/http/server/_responses.py::_set_http_status",
+        "vgi_rpc/http/server/_responses.py::_set_error_response",
+    ],
+    replay=make_replay("unary"),
+    min_obligations=400,
+    max_paths=3000,
+)
 def unary_route(S):
     W = drive_unary(S)
-    if W.defects == ["unknown_method"] or W.knobs.get("impl_outcome") == "returns":
-        S.canary("canary.every_request_is_dispatched", SBool(z3.BoolVal(W.dispatched)))
+    _common_canaries(S, W, "unary")
+
+
+@unit(
+    "C15.O1-O3 init route: _StreamInitResource.on_post down to the stream method and the first turn",
+    targets=[
+        "vgi_rpc/http/server/_resources.py::_StreamInitResource.on_post",
+        "vgi_rpc/http/server/_app_stream.py::_run_stream_init_sync",
+        "vgi_rpc/http/server/_app_stream.py::_dispatch_telemetry",
+        "vgi_rpc/http/server/_app_stream.py::_run_http_exchange_init",
+        "vgi_rpc/http/server/_app_stream.py::_run_http_producer_init",
+    ],
+    replay=make_replay("init"),
+    min_obligations=400,
+    max_paths=3000,
+)
+def init_route(S):
+    W = drive_init(S)
+    _common_canaries(S, W, "init")
+    if W.knobs.get("impl_outcome") == "returns":
+        S.canary("canary.init.no_call_ever_fails", SBool(z3.BoolVal(not W.failed)))
+
+
+@unit(
+    "C15.O1-O3 exchange route: _ExchangeResource.on_post down to state.process / on_cancel",
+    targets=[
+        "vgi_rpc/http/server/_resources.py::_ExchangeResource.on_post",
+        "vgi_rpc/http/server/_app_stream.py::_run_stream_exchange_sync",
+        "vgi_rpc/http/server/_app_stream.py::_unpack_and_recover_state",
+        "vgi_rpc/http/server/_app_stream.py::_resolve_call_from_token",
+        "vgi_rpc/http/server/_app_stream.py::_run_http_exchange_turn",
+        "vgi_rpc/http/server/_app_stream.py::_exchange_error_response",
+    ],
+    replay=make_replay("exchange"),
+    min_obligations=400,
+    max_paths=3000,
+)
+def exchange_route(S):
+    W = drive_exchange(S)
+    _common_canaries(S, W, "exchange")
+    if W.out.returned and ("process_outcome" in W.knobs or W.defects == ["unknown_method"]):
+        S.canary("canary.exchange.status_is_always_200", SBool(z3.BoolVal(W.resp.fields["status"] == "200")))
+
+
+@unit(
+    "C15.O1-O3 upload-url route: _UploadUrlResource.on_post",
+    targets=["vgi_rpc/http/server/_resources.py::_UploadUrlResource.on_post"],
+    replay=make_replay("upload"),
+    min_obligations=40,
+)
+def upload_route(S):
+    W = drive_upload(S)
+    if W.out.returned:
+        S.canary("canary.upload.marker_never_set", SBool(z3.BoolVal(not W.marker(W.resp))))
+
+
+@unit(
+    "C15.O1-O3 middleware rejections (413 / 415 / 400) through the app's error serializer",
+    targets=[
+        "vgi_rpc/http/server/_middleware.py::_MaxRequestBytesMiddleware.process_request",
+        "vgi_rpc/http/server/_middleware.py::_CompressionMiddleware.process_request",
+        "vgi_rpc/http/server/_errors.py::_make_error_serializer.<locals>._serialize",
+    ],
+    replay=replay_middleware,
+    min_obligations=15,
+)
+def middleware_rejections(S):
+    W = drive_middleware_rejection(S)
+    out, resp, arm = W.out, W.resp, W.arm
+    S.cur_site = f"middleware arm {arm}"
+    if arm == "accepted":
+        S.oblige("O1.accepted_body_passes_the_middleware", out.returned, kind="raises")
+        S.canary("canary.middleware.never_rejects", SBool(z3.BoolVal(False)))
+        return
+    S.oblige("O1.middleware_rejects_with_a_falcon_http_error", out.raised and exc_is(out.exc, falcon.HTTPError), kind="raises", witness=arm)
+    if not (out.raised and exc_is(out.exc, falcon.HTTPError)):
+        return
+    status = resp.fields["status"]
+    S.oblige("O2.middleware_rejection_status_is_the_tables", status == str(MW_TABLE[arm]), kind="post", witness=f"{arm} -> {status}")
+    if status not in ("401", "415"):
+        body = resp.fields["data"]
+        ok = resp.fields["content_type"] == ARROW and isinstance(body, SObj) and body.kind == "Blob" and W.ipc_written(body.fields["src"])
+        S.oblige("O3.middleware_rejection_has_an_arrow_body", ok, kind="post", witness=f"{status} {exc_class(out.exc).__name__}")
